@@ -109,8 +109,9 @@ Section Monitor.
   Let pl := pol c.
 
   (* ----- the event itself ----- *)
-  Definition mon_event (i : N) (m : mon) (ev : gevent) (outs : list gout) : mon :=
+  Definition mon_event1 (i : N) (m : mon) (ev : gevent) (outs : list gout) : mon :=
     match ev with
+    | GBurst _ => m
     | GHtlc rq =>
         match gclassify w rq with
         | KTramp h t =>
@@ -367,6 +368,15 @@ Section Monitor.
       if has_bit (m_kf acc) 0 then acc else viol i P06 (negb late) (viol i P11 (negb late) acc))
     (m_hs m) m.
 
+  (* a burst registers its HTLCs one after the other; each sees only the answers addressed to it *)
+  Definition mon_event (i : N) (m : mon) (ev : gevent) (outs : list gout) : mon :=
+    match ev with
+    | GBurst rqs =>
+        fold_left (fun acc rq => mon_event1 i acc (GHtlc rq)
+                                   (filter (fun o => match o with GResp u _ => u =? r_id rq | _ => false end) outs)) rqs m
+    | _ => mon_event1 i m ev outs
+    end.
+
   Definition mon_step (i : N) (m : mon) (st : tstep) : mon :=
     (* the HTLC delivered in this step counts as held during the output phase *)
     let m1 := mon_event i m (t_ev st) (t_out st) in
@@ -388,7 +398,7 @@ Definition mon0 (w : world) : mon :=
 (* End-of-trace obligations. [finale]: the harness appended a cooperative drain, so every HTLC must be answered (C06).
    [probe_from]: uids from this one on belong to the C09 probe; the last of them must be settled with a preimage. *)
 Definition mon_final (w : world) (finale : bool) (probe_from : option N) (tr : list tstep) : mon :=
-  let reqs := flat_map (fun st => match t_ev st with GHtlc rq => [rq] | _ => [] end) tr in
+  let reqs := flat_map (fun st => match t_ev st with GHtlc rq => [rq] | GBurst rqs => rqs | _ => [] end) tr in
   let m := mon_run w reqs 0 (mon0 w) tr in
   let n := N.of_nat (length tr) in
   let m := if finale && negb (has_bit (m_kf m) 0) then viol n P06 (match m_held m with [] => true | _ => false end) m else m in
